@@ -390,16 +390,31 @@ func targetsList.Split
   ensures len(result_0) >= 2 ==> result_0[1] == t[1]
   ensures len(result_1) >= 1 ==> result_1[0] == t[len(result_0)]
   ensures len(result_1) >= 2 ==> result_1[1] == t[len(result_0) + 1]
-  assumes len(result_0) >= 1 ==> result_0[0] < version
-  assumes len(result_0) >= 2 ==> result_0[1] < version
-  assumes len(result_1) >= 1 ==> result_1[0] >= version
-  assumes len(result_1) >= 2 ==> result_1[1] >= version
-// ASSUMED (sort.Search again): inserting into an empty or one-entry sorted list
+  // the cut is at the first entry >= version (for a sorted list of at most two entries):
+  // proved from what sort.Search guarantees for ANY predicate and the predicate's own contract
+  ensures C03/left-part-below: sorted2(t) && len(result_0) >= 1 ==> result_0[0] < version
+  ensures C03/left-part-below-2: sorted2(t) && len(result_0) >= 2 ==> result_0[1] < version
+  ensures C03/right-part-from-version: sorted2(t) && len(result_1) >= 1 ==> result_1[0] >= version
+  ensures C03/right-part-from-version-2: sorted2(t) && len(result_1) >= 2 ==> result_1[1] >= version
+define sorted2(t) = len(t) <= 2 && (len(t) == 2 ==> t[0] <= t[1])
+func targetsList.Split.$1
+  props C03 C12
+  requires 0 <= i && i < len(t)
+  ensures result == (t[i] >= version)
+
+// inserting into an empty or one-entry list (append in place or not, then the shifting copy);
+// the list's backing array may be written when its capacity allows
 func targetsList.InsertSorted
-  assumes len(t) == 0 ==> len(result) == 1 && result[0] == version
-  assumes len(t) == 1 && t[0] == version ==> len(result) == 1 && result[0] == version
-  assumes len(t) == 1 && t[0] < version ==> len(result) == 2 && result[0] == t[0] && result[1] == version
-  assumes len(t) == 1 && t[0] > version ==> len(result) == 2 && result[0] == version && result[1] == t[0]
+  props C03 C12
+  modifies t[*]
+  ensures C03/insert-into-empty: old(len(t)) == 0 ==> len(result) == 1 && result[0] == version
+  ensures C03/insert-duplicate: old(len(t) == 1 && t[0] == version) ==> len(result) == 1 && result[0] == version
+  ensures C03/insert-after: old(len(t) == 1 && t[0] < version) ==> len(result) == 2 && result[0] == old(t[0]) && result[1] == version
+  ensures C03/insert-before: old(len(t) == 1 && t[0] > version) ==> len(result) == 2 && result[0] == version && result[1] == old(t[0])
+func targetsList.InsertSorted.$1
+  props C03 C12
+  requires 0 <= i && i < len(t)
+  ensures result == (t[i] > version)
 
 // C03 (end side), the binding step: with an audit path whose present values all have the
 // length of a digest (PathOK) and whose needed values were all present (readsOK), if the END
